@@ -99,6 +99,7 @@ def replay_failure(modname, f, pid):
         p = subprocess.run([REPLAY_PY, os.path.join(HERE, 'replay.py'), path], capture_output=True, text=True,
                            timeout=600, env=dict(os.environ, PYTHONPATH=VERIF))
         rc, out = p.returncode, (p.stdout + p.stderr)[-2000:]
+        if rc == 1 and 'REPRODUCED property=' not in p.stdout: rc = 4        # a crash of the replay interpreter is not a reproduction
     return path, rc, out
 
 
